@@ -24,7 +24,7 @@ RULE = ('an outer pty plays the user of interact(): keystroke chunks over all by
 ASSUMPTIONS = ['inner child is the raw-mode puppet (no echo, no line discipline processing); outer tty has OPOST off before interact',
                'non-return of interact() within 15 s of the escape / the child exit is a refuting event (watchdog 60 s)']
 REQUIRED = ['sessions', 'stdin_reads_observed', 'child_reads_observed', 'escape_sessions', 'exit_sessions',
-            'mode_checks', 'bytes_to_child_compared', 'bytes_to_user_compared', 'sessions_with_child_writing_without_pause']
+            'mode_checks', 'bytes_to_child_compared', 'bytes_to_user_compared', 'sessions_with_child_writing_without_pause', 'sessions_entered_in_cbreak_mode']
 
 FILTERS = {'upper': lambda b: b.upper(), 'double': lambda b: b + b, 'drop-x': lambda b: b.replace(b'x', b''),
            'grow-a': lambda b: b.replace(b'a', b'aaa'), 'slow': lambda b: b, None: lambda b: b}
@@ -144,6 +144,15 @@ def gen_case(rng, for_log=False):
                         'output': filt_out},
             'pending': rng.choice(['', '', 'PEND\xe9ing']), 'steps': steps, 'end': end, 'logs': [],
             'prior': rng.choice([False, False, False, False, True, True, 'abort']), 'dead_first': dead_first}
+    if not for_log and not dead_first and rng.random() < 0.15:
+        # the user's terminal is in single-key (cbreak) mode on entry, not in line mode: interact() still has to make
+        # it raw, or CR arrives as NL and ^S/^Q never arrive.  (The signal keys are left out: with ISIG still on they
+        # would end the driver itself.)
+        case['entry_mode'] = 'cbreak'
+        clean = bytes.maketrans(b'\x03\x1c\x1a', b'kkk')
+        case['steps'] = [[st[0], bytes.fromhex(st[1]).translate(clean).hex()] if st[0] == 'type' else st for st in case['steps']]
+        if case['escape'] != 'Q' or True:
+            case['steps'].insert(0, ['type', b'a\rb\x11c\x13\rd'.hex()])
     if case['pending'] and rng.random() < 0.5:
         # the pending text was left behind by an exact-string call that timed out
         case['pending'] = 'PEND\xe9ing text, longer than any look-back'
@@ -175,6 +184,7 @@ def gen_case(rng, for_log=False):
 def run_session(case):
     """-> dict(observations) ; raises PeerError when the harness could not drive it"""
     cfg = {k: case[k] for k in ('enc', 'poll', 'escape', 'filters', 'pending', 'logs')}
+    cfg['entry_mode'] = case.get('entry_mode')
     cfg['prior'] = case.get('prior') or False
     cfg['dead_first'] = bool(case.get('dead_first'))
     cfg['pending_trim'] = bool(case.get('pending_trim'))
@@ -206,7 +216,10 @@ def run_session(case):
             os.write(S.go_w, b'd')
         if S.expect_status('INTERACT', 20) is None:
             raise PeerError('driver did not reach interact()')
-        if not case.get('dead_first') and not S.wait_raw(10):
+        if case.get('entry_mode') == 'cbreak':
+            # (whether the terminal is made raw is the point of these sessions: the keystroke oracle decides)
+            obs['raw_seen'] = S.wait_raw(3)
+        elif not case.get('dead_first') and not S.wait_raw(10):
             raise PeerError('outer tty never became raw')
         fin = FILTERS[case['filters']['input']]
         escb = case['escape'].encode('latin-1') if case['escape'] else None
@@ -313,6 +326,8 @@ def one(case, acc):
         return False
     if case.get('flood'):
         acc.count('sessions_with_child_writing_without_pause')
+    if case.get('entry_mode') == 'cbreak':
+        acc.count('sessions_entered_in_cbreak_mode')
     if obs.get('flood') and not obs['flood'][1]:
         return v('keystrokes-not-delivered-while-child-writes', 'the child wrote %d lines for 20 s and never received the q typed '
                  'at the start' % obs['flood'][0])
